@@ -247,7 +247,7 @@ impl Prop for C11 {
         ]
     }
     fn strategy(&self, tier: Tier) -> Option<(BoxedStrategy<Case>, u32)> {
-        Some((crate::gen::selpair::pairs().boxed(), tier.pick(3_000, 100_000)))
+        Some((crate::gen::selpair::pairs().boxed(), tier.pick(12_000, 200_000)))
     }
     fn enumerate(&self, _tier: Tier) -> Vec<Case> {
         crate::gen::selpair::directed()
